@@ -50,6 +50,9 @@ def functor_of(case, dims, arrays):
 
 
 def check_eval(out, ref, dims, dom, cod, label, detail):
+    from discopy.tensor import Tensor
+    require(isinstance(out, Tensor), "C09:" + label + ":not-a-tensor",
+            lambda: "{}: {!r}".format(detail, out))
     exp_dom = [dims[n] for n, _ in dom if dims[n] != 1]
     exp_cod = [dims[n] for n, _ in cod if dims[n] != 1]
     require(list(out.dom) == exp_dom and list(out.cod) == exp_cod,
@@ -182,6 +185,15 @@ def check_tensor(case):
     total = (d + par).eval()
     check_eval(total, ref + classes.tensor_ref_eval(case["par"]), dims,
                spec["dom"], cod, "sum", common.show(d + par))
+    # the sum of no terms at all is the zero tensor of its type, alone and
+    # composed with a diagram
+    empty = tensor.Sum([], d.dom, d.cod)
+    ident = tensor.Functor(ob=lambda x: x, ar=lambda f: f.array)
+    check_eval(ident(empty), np.zeros_like(ref), dims, spec["dom"], cod,
+               "empty-sum", "Sum([], {}, {})".format(d.dom, d.cod))
+    check_eval(ident(tensor.Sum([], d.dom, d.dom) >> d), np.zeros_like(ref),
+               dims, spec["dom"], cod, "empty-sum",
+               "Sum([]) >> {}".format(common.show(d)))
     # bubble around the whole diagram
     if case["whole"]:
         func = classes.BUBBLE_FUNCS[case["whole"]]
